@@ -246,6 +246,7 @@ fn parse_go(args: String, game: &mut Game, io_receiver: &IoWrapper, tt: &mut Tra
     if move_time != -1 {
         time = move_time
     } else if time != -1 {
+        let remaining = time;
         if time > 2000 {
             time /= moves_to_go;
             time += inc;
@@ -257,6 +258,8 @@ fn parse_go(args: String, game: &mut Game, io_receiver: &IoWrapper, tt: &mut Tra
         else {
             time /= moves_to_go;
         }
+        //Never plan to think longer than the clock allows (and never fall into the "no limit" value -1)
+        time = time.min(remaining - 1).max(0);
     }
 
     //Run search
